@@ -718,11 +718,18 @@ def r9_exact_float_discipline(ctx, rule, prefixes=('lib_guesser/pcfg_grammar.py'
         ctx.ok(rule, prefixes[0], 'no tolerance / rounding on probabilities among %d comparisons of the guesser core' % n)
 
 
+def _mask_insertion(ctx, rule):
+    # a structure whose late alpha segment gets no capitalisation transition carries a probability without that mask factor and is
+    # popped ahead of more probable pre-terminals (seed C01-h)
+    from . import c03
+    return c03.r3_mask_insertion(ctx, rule)
+
+
 def rules(tier):
     return [('C01.R1', r1_heap_order), ('C01.R2', r2_heap_ownership), ('C01.R3', r3_prob_fold),
             ('C01.R4', r4_prob_pt_coupling), ('C01.R5', r5_successor), ('C01.R6', r6_loader_order),
             ('C01.R7', r7_determinism), ('C01.R8', r8_uniform_scale),
-            ('C01.R9', r9_exact_float_discipline)]
+            ('C01.R9', r9_exact_float_discipline), ('C01.R10', _mask_insertion)]
 
 
 META = {
